@@ -114,12 +114,25 @@ def bob_sweep(args):
     meta = {"what": f"b_o_bubblepoint T={T} API={api} gas_gravity={gg}", "T": T, "api": api, "gg": gg,
             "gors": list(gors)}
     points = []
-    for r in gors:
+    # the derivative function also takes a GOR *array* (e.g. the R_s history of a draw-down followed by a build-up, which ends
+    # where it started): every element must be the derivative at that element
+    gl = [float(x) for x in gors]
+    hist = np.array(gl[::-1] + gl[1:], dtype=float)
+    try:
+        arr = np.asarray(oil.db_o_dgor_Standing(T, api, gg, hist), dtype=float)
+        if arr.shape != hist.shape:
+            arr = np.full(hist.shape, np.nan)
+    except Exception:  # noqa: BLE001
+        arr = np.full(hist.shape, np.nan)
+    n = len(gl)
+    for j, r in enumerate(gl):
         d = float(oil.db_o_dgor_Standing(T, api, gg, r))
         _v, d_ad = derivative(lambda x: oil.b_o_bubblepoint_Standing(T, api, gg, x), r)
-        points.append({"x": quant.q(r, *GWIN), "side": "none", "agree": {"dbo_ad": rel15(d, d_ad)},
+        in_hist = [float(arr[n - 1 - j])] + ([float(arr[n - 1 + j])] if j > 0 else [])
+        worst = max([rel15(d, d_ad)] + [rel15(v, d_ad) for v in in_hist])
+        points.append({"x": quant.q(r, *GWIN), "side": "none", "agree": {"dbo_ad": worst},
                        "flags": {"finite": math.isfinite(d)},
-                       "raw": {"gor": r, "db_o_dgor": d, "dBo_dRs_AD": d_ad}})
+                       "raw": {"gor": r, "db_o_dgor": d, "dBo_dRs_AD": d_ad, "in_array_history": in_hist}})
     return {"profile": "bob", "meta": meta, "points": points}
 
 
